@@ -56,6 +56,10 @@ def main():
         rc0, o0 = sh("/venv/bin/python %s" % demo, cwd=wt, env=env, timeout=900)
         out["demo_without_change_exit"] = rc0
         rc, o = sh("git apply %s" % patch, cwd=wt)
+        if rc != 0:
+            # the candidate was written against an earlier HEAD of /repo (a later fix: commit touched the same file): merge
+            rc, o = sh("git apply --3way %s && git reset -q" % patch, cwd=wt)
+            out["applied_with_3way_merge"] = rc == 0
         out["patch_applies"] = rc == 0
         if rc != 0:
             out["error"] = o[-500:]
